@@ -405,7 +405,7 @@ def enum_cases(cls):
         args = {"own_field": lambda tt: tt.a, "str": lambda tt: "a", "star": lambda tt: "*", "const": lambda tt: 1, "arith_own": lambda tt: tt.a + 1,
                 "foreign_field": lambda tt: u.a, "arith_foreign": lambda tt: u.a + 1, "function": lambda tt: __import__("pypika_tortoise.functions", fromlist=["Sum"]).Sum(tt.a), "null": lambda tt: None,
                 "aliased_own": lambda tt: tt.a.as_("x"), "foreign_aliased_table": lambda tt: P.Table("t", alias="z").a}
-        for stmt in ("select", "insert", "update", "delete", "update_join", "insert_aliased_own"):
+        for stmt in ("select", "insert", "update", "delete", "update_join", "insert_aliased_own", "update_join_using", "insert_after_star", "update_after_star"):
             for an_, mk in args.items():
                 def thunk(stmt=stmt, an_=an_, mk=mk):
                     tt = t
@@ -419,13 +419,19 @@ def enum_cases(cls):
                         q = Q.from_(t).delete()
                     elif stmt == "update_join":
                         q = Q.update(t).join(u).on(t.a == u.a).set(t.a, 1)
+                    elif stmt == "update_join_using":
+                        q = Q.update(t).join(u).using("a").set(t.b, 1)
+                    elif stmt == "insert_after_star":
+                        q = Q.into(t).insert(1).returning("*")  # a star does not switch the guards off
+                    elif stmt == "update_after_star":
+                        q = Q.update(t).set(t.a, 1).returning("*")
                     else:
                         tt = P.Table("t", alias="o")
                         q = Q.into(tt).insert(1)
                     arg = mk(tt)
                     r = outcome(lambda: q.returning(arg))
-                    foreign = an_ in ("foreign_field", "arith_foreign", "foreign_aliased_table") and stmt != "update_join"
-                    if an_ == "foreign_aliased_table" and stmt == "update_join":
+                    foreign = an_ in ("foreign_field", "arith_foreign", "foreign_aliased_table") and stmt not in ("update_join", "update_join_using")
+                    if an_ == "foreign_aliased_table" and stmt in ("update_join", "update_join_using"):
                         foreign = True
                     exp = None
                     if stmt == "select":
